@@ -1101,7 +1101,11 @@ fn execute_inner(ctx: &mut Ctx, lines: &[String]) -> Vec<String> {
             }
             ["EXTREN"] | ["EXTRM"] => {
                 ctx.report.count(&format!("op.{}", t[0]));
-                let p = f.current_path();
+                // direct namings: the file written to is the newest one of the family
+                let direct = f.cfg.rot.as_ref().map_or(false, |r| r.naming == "numd" || r.naming == "tsd");
+                let p = if direct {
+                    f.reading_order().iter().filter(|n| !n.starts_with("moved-")).next_back().map_or(f.current_path(), |n| dir.join(n))
+                } else { f.current_path() };
                 if f.w.is_some() && p.exists() {
                     if t[0] == "EXTREN" {
                         let nm = format!("moved-{:04}.bak", f.moved);
